@@ -7,11 +7,12 @@ Import ListNotations.
 Open Scope Z_scope.
 
 Definition kind_eqb (a b : kind) : bool :=
-  match a, b with KConst, KConst | KArg, KArg | KAccum, KAccum => true | _, _ => false end.
+  match a, b with KConst, KConst | KArg, KArg | KAccum, KAccum | KMemo, KMemo => true | _, _ => false end.
 
 (* one signature *)
 Record sig_ok (s : sig) : Prop := {
-  ok_const : forall g k, In (g, k) (s_fills s) -> k = KConst;          (* only constant tables are cached *)
+  ok_const : forall g k, In (g, k) (s_fills s) -> k = KConst \/ k = KMemo;   (* only constant tables and memo
+                                                                          tables keyed by the arguments *)
   ok_reads : forall g, In g (s_reads s) -> exists k, In (g, k) (s_fills s); (* it fills whatever it reads ... *)
   ok_guard : s_unguarded s = [];                                        (* ... before reading it *)
   ok_seed : s_draws s = true -> s_seed_dom s = true /\ s_seed_lit s <> None;
@@ -24,7 +25,7 @@ Definition is_none {A} (o : option A) : bool := match o with None => true | Some
 Definition is_nil {A} (l : list A) : bool := match l with [] => true | _ => false end.
 
 Definition sig_okb (s : sig) : bool :=
-  forallb (fun gk => kind_eqb (snd gk) KConst) (s_fills s)
+  forallb (fun gk => kind_eqb (snd gk) KConst || kind_eqb (snd gk) KMemo) (s_fills s)
   && forallb (fun g => existsb (fun gk => g =? fst gk) (s_fills s)) (s_reads s)
   && is_nil (s_unguarded s)
   && (negb (s_draws s) || (s_seed_dom s && negb (is_none (s_seed_lit s))))
